@@ -702,7 +702,7 @@ def expand_additional_doses(model: Model, flag: bool = False):
 
     df = df.apply(fn, axis=1)
     df = df.apply(lambda x: x.explode() if x.name in ['_TIMES', '_EXPANDED'] else x)
-    df = df.astype({'_EXPANDED': np.bool_})
+    df = df.astype({**model.dataset.dtypes.to_dict(), '_EXPANDED': np.bool_})
     df = df.groupby([idcol, '_RESETGROUP'], group_keys=False)[df.columns].apply(
         lambda x: x.sort_values(by='_TIMES', kind='stable')
     )
